@@ -113,6 +113,20 @@ def dlint_fatal_determinism(ctx, prefix="C19"):
         ctx.violation("%s.dlint-report-depends-on-schedule-with-duplicate-paths" % prefix,
                       "a path listed several times: stderr/exit differ between thread counts %d and %d" % (a[0], b[0]),
                       {"dir": root, "run_a": {"threads": a[0], "exit": a[1], "stderr": a[2][-600:]}, "run_b": {"threads": b[0], "exit": b[1], "stderr": b[2][-600:]}})
+    # many files (more than any plausible "small run" threshold): the report is the same for every thread count
+    mroot = os.path.join(root, "manyfiles")
+    os.makedirs(mroot)
+    mnames = ["m%03d.ts" % i for i in range(300)]
+    for i, nm in enumerate(mnames):
+        open(os.path.join(mroot, nm), "w").write("debugger;\n" if i % 3 else "export {};\n")
+    mruns = []
+    for th in (1, 4, 16, 8):
+        rc, so, se = run_dlint(dl, mroot, ["--rule", "no-debugger", "--format", "compact"] + mnames, th)
+        mruns.append((th, rc, se))
+    if len({(rc, se) for _, rc, se in mruns}) > 1:
+        a = mruns[0]; b = next((r for r in mruns if (r[1], r[2]) != (a[1], a[2])), mruns[-1])
+        ctx.violation("%s.dlint-report-depends-on-schedule-with-many-files" % prefix, "300 files: stderr/exit differ between thread counts %d and %d" % (a[0], b[0]),
+                      {"dir": mroot, "run_a": {"threads": a[0], "exit": a[1], "stderr": a[2][:400]}, "run_b": {"threads": b[0], "exit": b[1], "stderr": b[2][:400]}})
     # exit status and count for totals around and at multiples of 256 (one file, and split over two files)
     nbig = 0
     for total in (255, 256, 257, 512, 65536):
